@@ -48,7 +48,7 @@ type Spec struct {
 	// HasReplayer: a recording replayer is configured, so every message has a Put entry until it panics.
 	HasReplayer bool
 	Subs        []*Sub
-	Msgs []*Msg
+	Msgs        []*Msg
 	// ConcurrentShutdown: a Shutdown may have been requested while publishers/subscribers were running;
 	// DoneBeforeShutdown lists what had been published when it was requested (nil map + true: nothing is owed).
 	ConcurrentShutdown bool
@@ -177,6 +177,7 @@ func Check(sp *Spec) string {
 				st.inReplay = false
 				if e.Res == "err" {
 					st.registered = false
+					st.dirty = false // a failed replay owes no Flush
 				}
 				if st.dirty {
 					return fmt.Sprintf("%s: the replay sent %s but did not flush", e.Sub, st.pending)
